@@ -362,3 +362,77 @@ PROPS["C17"] = _cw1_prop("C17", 3, C17_CLAUSES, "admin list, frozen flag, allowa
     "mutable; once immutable they never change over any history (induction); allowances and permissions are altered only by "
     "current admins, except a subkey's own accepted spending of its own allowance. Tie to the Rust: S_C17 on every "
     "implementation step of histories on both proxies + equality of admin list/flag/permissions (measured).")
+
+
+# ------------------------------------------------------------------------------------------
+# cw4 family
+C09_CLAUSES = {1: "reported total differs from the sum of the listed member weights", 2: "member listing and point query disagree",
+               3: "an at-height member answer for a height <= the call's block changed (history not frozen)",
+               4: "an at-height member answer for a future height differs from the current weight",
+               5: "an at-height total answer for a height <= the call's block changed", 6: "future-height total differs from the current total",
+               7: "raw storage read (TOTAL_KEY / member_key) differs from the smart query"}
+C10_CLAUSES = {1: "holdings below recorded stakes + unreleased claims", 2: "funded only by bonding, yet holdings differ from stakes + claims",
+               3: "reported weight is not floor(stake / tokens_per_weight), or membership differs from stake >= min_bond",
+               4: "a call other than Claim paid tokens out", 5: "a failed call changed stakes, claims or holdings",
+               6: "bond accepted with a token other than the configured one (or from a non-token caller)",
+               7: "bond did not add exactly the amount to the staker's stake (or touched someone else)",
+               8: "unbond did not move exactly the amount from stake to a claim maturing after the unbonding period",
+               9: "claim changed a stake or another user's claims", 10: "claim did not remove exactly the matured claims",
+               11: "claim payout differs from the caller's matured claims", 12: "a call that may not touch stakes/claims/holdings did"}
+C14_CLAUSES = {1: "admin, hooks or group membership changed other than by the current admin's own call",
+               2: "a failed call emitted messages", 3: "hook notification from a call that changes no membership",
+               4: "a registered hook was not notified of a change", 5: "notifications are not exactly one per registered hook, in order",
+               6: "hooks received different payloads", 7: "a diff entry reports a wrong previous weight",
+               8: "the diff list does not explain the observed change of weights", 9: "cw4-stake: not exactly one real change reported"}
+
+
+def mk_cw4_run(eval_index, clauses, proj):
+    def run(prop, tier, seed, replay, coverage):
+        return run_trace_family("cw4", "cw4", eval_index, clauses, proj, prop, tier, seed, replay, coverage, steps=25)
+    return run
+
+
+CW4_ASSUME = [
+    "theorems are about the Gallina transliteration of cw4-group / cw4-stake, cw-storage-plus SnapshotMap/SnapshotItem "
+    "(EveryBlock) and cw-controllers Admin/Hooks/Claims (Cw4Model.v); agreement with the Rust is measured on the explored histories",
+    "block heights never decrease (hypothesis `mono` of the history theorems; invariant of the generator)",
+    "the raw-key clause (TOTAL_KEY, member_key) is decided by the differential run only: raw reads are compared with the smart "
+    "queries after every call; the byte layout itself is not modelled",
+    "C10 backing: the configured cw20 token is honest (calls Receive only from its own Send); holdings are the bank / cw20 "
+    "balance of the contract as kept by cw-multi-test",
+]
+
+
+def _cw4_prop(pid, idx, clauses, proj, text):
+    return {
+        "id": pid, "props_file": "Props/%s.v" % pid,
+        "coq_targets": ["Props/%s.v" % pid, "Cw4Check.v"], "exec_targets": ["Cw4Check.v"],
+        "run": mk_cw4_run(idx, clauses, proj), "assumptions": CW4_ASSUME, "level_text": text,
+        "design_ref": "DESIGN.md section 6 " + pid,
+    }
+
+
+PROPS["C09"] = _cw4_prop("C09", 0, C09_CLAUSES, "member list, total and all at-height answers",
+    "Axiom-free Coq theorems over the transliterated cw4-group / cw4-stake handlers and the snapshot changelog of "
+    "cw-storage-plus: in every state reachable from every instantiation by every history in non-decreasing blocks the total is "
+    "the sum of the listed weights; Member{a, at_height=h} for EVERY address and height equals the weight after the last call "
+    "in a block < h (nothing up to the instantiation block), likewise TotalWeight{at_height} of cw4-group (induction over "
+    "histories on a per-key changelog invariant); plus an abstract soundness theorem turning the per-step contract S_C09 "
+    "(answers for h <= block frozen, h > block = current) into that history statement. Tie to the Rust: S_C09 evaluated in Coq "
+    "on every implementation step for every pool address and every height 0..H+2, raw reads vs smart queries, and "
+    "model/implementation equality of all those answers (measured).")
+PROPS["C10"] = _cw4_prop("C10", 1, C10_CLAUSES, "stakes, claims, holdings and payout messages",
+    "Axiom-free Coq theorems: over every history holdings = stakes + unreleased claims + outside donations (ghost sum, "
+    "induction), so stakes are always backed and exactly backed when funded only by bonding; every accepted call changes stakes "
+    "and claims exactly as its operation prescribes (only the configured token, only the caller's own stake, unbond creates one "
+    "claim maturing no earlier than the period, claim pays exactly the matured claims once); in every reachable state the "
+    "reported weight is calc_weight(stake): member iff stake >= max(min_bond,1), weight = full quotient stake/tokens_per_weight "
+    "fitting u64. Tie to the Rust: S_C10 on every implementation step (native and cw20 configurations, amounts up to 2^100, "
+    "tokens_per_weight 0..2^128-1, both duration kinds) + equality of stakes/claims/holdings/payouts (measured).")
+PROPS["C14"] = _cw4_prop("C14", 2, C14_CLAUSES, "admin, hooks, member list and hook messages",
+    "Axiom-free Coq theorems: admin, hook list and (cw4-group) members change only in a call by the current admin; once the "
+    "admin is cleared they never change over any history (induction); every accepted membership call sends exactly one message "
+    "per registered hook in order, all with the same diff list, and that list EXPLAINS the change (replayed over the old "
+    "weights each `old` is the running weight, the result is the new table, unmentioned addresses are unchanged); cw4-stake "
+    "notifies exactly when the weight changed; no other call notifies. Tie to the Rust: S_C14 on every implementation step with "
+    "real hook-receiver contracts (and non-contract hooks that make the call roll back) + equality of messages (measured).")
